@@ -1,6 +1,7 @@
 package main
 
 import (
+	"go/types"
 	"fmt"
 	"go/token"
 	"strings"
@@ -204,10 +205,13 @@ func checkC12(c *Ctx, r *Report) {
 			if !ok || !call.Call.IsInvoke() || call.Call.Method.Name() != "TransformRequest" {
 				return
 			}
-			var errV ssa.Value
+			var errV, reqV ssa.Value
 			for _, ref := range *call.Referrers() {
 				if ex, ok := ref.(*ssa.Extract); ok && ex.Index == 1 {
 					errV = ex
+				}
+				if ex, ok := ref.(*ssa.Extract); ok && ex.Index == 0 {
+					reqV = ex
 				}
 			}
 			// dispatch sites after it
@@ -217,7 +221,13 @@ func checkC12(c *Ctx, r *Report) {
 					return
 				}
 				sc := cc.StaticCallee()
-				if sc == nil || sc.Name() != "executeTranslationRequest" {
+				takesTranslated := false
+				for _, a := range cc.Args {
+					if reqV != nil && a == reqV {
+						takesTranslated = true
+					}
+				}
+				if sc == nil || !takesTranslated || !strings.HasSuffix(fnPkgPath(sc), pkgHandlers) {
 					return
 				}
 				k2 := fname(f) + ":dispatch-after-successful-transform"
@@ -238,7 +248,7 @@ func checkC12(c *Ctx, r *Report) {
 			found := false
 			eachInstr(f, func(i2 ssa.Instruction) {
 				cc := getCall(i2)
-				if cc == nil || describeCall(cc).Name != "writeTranslatorError" {
+				if cc == nil || !isTranslatorErrorHelper(cc.StaticCallee()) {
 					return
 				}
 				st, _ := constInt(cc.Args[len(cc.Args)-1])
@@ -637,6 +647,65 @@ type sseSim struct {
 	lineFn   *ssa.Function
 	syncFn   *ssa.Function
 	lineMemo map[sseG]map[sseG]bool
+	// the two fields of the stream state the simulation models, found by what they are used for (not by name):
+	// the bool set to true where message_start is emitted, and the pointer to the currently open content block
+	startedField, blockField *types.Var
+}
+
+// resolveStateFields finds the modelled fields of StreamingState structurally.
+func (s *sseSim) resolveStateFields() {
+	st := s.c.Named(pkgAnthropic, "StreamingState")
+	if st == nil {
+		return
+	}
+	str, ok := st.Underlying().(*types.Struct)
+	if !ok {
+		return
+	}
+	for i := 0; i < str.NumFields(); i++ {
+		f := str.Field(i)
+		if pt, ok := f.Type().(*types.Pointer); ok {
+			if es, ok := pt.Elem().Underlying().(*types.Struct); ok {
+				for j := 0; j < es.NumFields(); j++ {
+					if es.Field(j).Name() == "Type" && es.Field(j).Type().String() == "string" {
+						if s.blockField == nil {
+							s.blockField = f
+						}
+					}
+				}
+			}
+		}
+	}
+	cands := map[*types.Var]bool{}
+	for _, f := range s.c.Funcs {
+		if !strings.HasSuffix(fnPkgPath(f), pkgAnthropic) {
+			continue
+		}
+		emitsStart := false
+		eachInstr(f, func(in ssa.Instruction) {
+			if call, ok := in.(*ssa.Call); ok && isWriteEvent(call.Call.StaticCallee()) && eventNameArg(&call.Call) == "message_start" {
+				emitsStart = true
+			}
+		})
+		if !emitsStart {
+			continue
+		}
+		eachInstr(f, func(in ssa.Instruction) {
+			if stt, ok := in.(*ssa.Store); ok {
+				if fa, ok := stt.Addr.(*ssa.FieldAddr); ok {
+					o, fld, _ := fieldOf(fa)
+					if k, isK := stt.Val.(*ssa.Const); isK && k.Value != nil && k.Value.String() == "true" && types.Identical(deref(o), st) {
+						cands[fld] = true
+					}
+				}
+			}
+		})
+	}
+	if len(cands) == 1 {
+		for f := range cands {
+			s.startedField = f
+		}
+	}
 }
 
 func kindName(k int8) string { return map[int8]string{0: "", 1: "text", 2: "tool_use"}[k] }
@@ -846,10 +915,10 @@ func (s *sseSim) evalUnOp(x *ssa.UnOp, env map[ssa.Value]absV, g sseG) absV {
 			_, f, _ := fieldOf(fa)
 			base := s.val(fa.X, env, g)
 			if base.kind == 6 {
-				switch f.Name() {
-				case "messageStartSent":
+				switch f {
+				case s.startedField:
 					return absV{kind: 1, b: g.started == 1}
-				case "currentBlock":
+				case s.blockField:
 					if g.block == 0 {
 						return absV{kind: 2}
 					}
@@ -907,8 +976,8 @@ func (s *sseSim) doStore(x *ssa.Store, env map[ssa.Value]absV, g sseG, fn *ssa.F
 	if s.val(fa.X, env, g).kind != 6 {
 		return g
 	}
-	switch f.Name() {
-	case "messageStartSent":
+	switch f {
+	case s.startedField:
 		if v := s.val(x.Val, env, g); v.kind == 1 {
 			if v.b {
 				g.started = 1
@@ -916,7 +985,7 @@ func (s *sseSim) doStore(x *ssa.Store, env map[ssa.Value]absV, g sseG, fn *ssa.F
 				g.started = 0
 			}
 		}
-	case "currentBlock":
+	case s.blockField:
 		v := s.val(x.Val, env, g)
 		switch v.kind {
 		case 2:
@@ -1121,6 +1190,10 @@ func checkC13(c *Ctx, r *Report) {
 		r.Unresolved("C13-R1", "TransformStreamingResponse / transformStreamingSync / processStreamLine")
 	} else {
 		sim := &sseSim{c: c, r: r, viol: map[string]string{}, violPos: map[string]token.Pos{}, lineFn: line, syncFn: sync}
+		sim.resolveStateFields()
+		if sim.startedField == nil || sim.blockField == nil {
+			r.Unresolved("C13-R1", "StreamingState fields: the message-start flag and the open-block pointer")
+		}
 		finals := sim.run(top, sseG{}, make([]absV, len(top.Params)), 8)
 		// per emission site obligations
 		sites := map[string]token.Pos{}
@@ -1340,8 +1413,57 @@ func fromStopMapping(c *Ctx, v ssa.Value, depth int) bool {
 			}
 		}
 		return len(x.Edges) > 0
+	case *ssa.Field:
+		// a field of a struct returned by a repo helper
+		return fieldOfStructResult(c, x.X, x.Field, depth)
+	case *ssa.UnOp:
+		if fa, ok := x.X.(*ssa.FieldAddr); ok && x.Op == token.MUL {
+			if al, ok := fa.X.(*ssa.Alloc); ok {
+				if st := cellStores(al); len(st) == 1 {
+					return fieldOfStructResult(c, st[0], fa.Field, depth)
+				}
+			}
+		}
 	}
 	return false
+}
+
+// fieldOfStructResult: sv is the struct result of a repo helper call; does field idx of every value it returns come
+// from the finish-reason mapping?
+func fieldOfStructResult(c *Ctx, sv ssa.Value, idx int, depth int) bool {
+	call, ok := sv.(*ssa.Call)
+	if !ok || call.Call.StaticCallee() == nil || !c.inRepo(call.Call.StaticCallee()) {
+		return false
+	}
+	rets := returnsOf(call.Call.StaticCallee())
+	for _, ret := range rets {
+		rv := retResult(ret, 0)
+		ld, ok := rv.(*ssa.UnOp)
+		if !ok {
+			return false
+		}
+		al, ok := ld.X.(*ssa.Alloc)
+		if !ok {
+			return false
+		}
+		found := false
+		for _, ref := range *al.Referrers() {
+			if fa, ok := ref.(*ssa.FieldAddr); ok && fa.Field == idx {
+				for _, r2 := range *fa.Referrers() {
+					if st, ok := r2.(*ssa.Store); ok && st.Addr == fa {
+						if !fromStopMapping(c, st.Val, depth-1) {
+							return false
+						}
+						found = true
+					}
+				}
+			}
+		}
+		if !found {
+			return false
+		}
+	}
+	return len(rets) > 0
 }
 
 // dependsOn: v is computed from src (through calls, binops, conversions).
